@@ -544,6 +544,14 @@ def equal(a, b, facts=(), max_split=10, _depth=0):
     Case-splits on the parity of atoms under rem(.,2) and on the truth of every ite-condition;
     each case is decided by canonical-form identity."""
     if a == b: return True, None
+    if _depth == 0 and ENUM_DISCR and any(u[0] == 'discr' for u in subterms(a) | subterms(b)) and any(u[0] == 'isvar' for u in subterms(a) | subterms(b)):
+        r_ = equal(a, b, facts, max_split, 1)
+        if r_[0]: return r_
+        # one side converts an enum with `as`, the other by a `match`: a second attempt with both written by cases
+        a2_, b2_ = _expand_discr(a), _expand_discr(b)
+        if a2_ == b2_: return True, None
+        r2_ = equal(a2_, b2_, facts, max_split, 1)
+        return r2_ if r2_[0] else r_
     pa = sorted(parity_atoms([a, b]), key=key)
     if len(pa) > 6: return False, {'reason': 'too many parity atoms'}
     for par in itertools.product((0, 1), repeat=len(pa)):
@@ -563,7 +571,9 @@ def equal(a, b, facts=(), max_split=10, _depth=0):
             saved = CTX
             ranges = {}
             for _r0 in range(3):
-                for c, v in zip(conds, asg): refine(c if v else bnot(c), ranges)
+                for c, v in zip(conds, asg):
+                    if c[0] in ('a', 'sel'): refine(('eq', c, C(1 if v else 0)), ranges)      # a 0/1 leaf decided by cases
+                    else: refine(c if v else bnot(c), ranges)
             for _round in range(3):
                 CTX = ranges
                 for fct in facts:
@@ -610,6 +620,19 @@ def _bit_leaves(t):
             for v in subterms(u):
                 if v[0] in ('a', 'sel') and rng(v) == (0, 1): out.add(v)
     return out if len(out) <= 6 else set()
+
+ENUM_DISCR = {}         # scrutinee term -> [(variant name, discriminant)] of its (fieldless) enum
+
+def _expand_discr(t):
+    """discr(x) written out by cases over the variants of x's enum (`x as u8` against `match x { A => 0, B => 1, .. }`)"""
+    def f(u):
+        if u[0] == 'discr' and u[1] in ENUM_DISCR:
+            vs = ENUM_DISCR[u[1]]
+            r = C(vs[-1][1])
+            for nm, d in reversed(vs[:-1]): r = ite(('isvar', u[1], nm), C(d), r)
+            return r
+        return None
+    return rebuild(t, f)
 
 ENUM_VARIANTS = {}      # scrutinee term -> number of variants of its enum (filled in by the interpreter)
 
